@@ -72,14 +72,14 @@ Definition pool_own (mac ip : N) (a : amap N) : bool :=
 Definition dwf (c : dcfg) (s : dst) (mac : N) (l : lease) : bool :=
   pool_own mac (l_ip l) (alloc s) &&
   (ahas mac (alloc s) || smem (l_ip l) (avail s) || smem (l_ip l) (unavail s)) &&
-  (c_nat c || negb (smem (l_ip l) (nat s))) && (c_qos c || negb (smem (l_ip l) (qos s) || smem (l_ip l) (qosi s))) &&
+  (c_nat c || negb (smem (l_ip l) (nat s))) && (c_qos c || negb (smem (l_ip l) (qos s) || smem (l_ip l) (qosi s) || smem (l_ip l) (qost s))) &&
   negb (existsb (fun p => snd p =? l_ip l) (cvlan s)) &&
   ((l_sid l =? 0) || ((count (l_sid l) (stops s) =? 0) && (c_radius c || (count (l_sid l) (starts s) =? 0)))).
 
 (* "holds nothing" as one boolean *)
 Definition dfree (s : dst) (e : dsess) : bool :=
   negb (ahas (se_mac e) (alloc s)) && (smem (se_ip e) (avail s) || smem (se_ip e) (unavail s)) &&
-  negb (smem (se_ip e) (nat s)) && negb (smem (se_ip e) (qos s) || smem (se_ip e) (qosi s)) && negb (ahas (se_mac e) (cmac s)) &&
+  negb (smem (se_ip e) (nat s)) && negb (smem (se_ip e) (qos s) || smem (se_ip e) (qosi s) || smem (se_ip e) (qost s)) && negb (ahas (se_mac e) (cmac s)) &&
   ((se_cid e =? 0) || (negb (ahas (se_cid e) (chash s)) && negb (ahas (se_cid e) (csub s)))) &&
   negb (existsb (fun p => snd p =? se_ip e) (cvlan s)) &&
   ((se_sid e =? 0) || (count (se_sid e) (starts s) =? 0) || (count (se_sid e) (stops s) =? 1)).
@@ -153,10 +153,10 @@ Qed.
 (* the post-state of release_rest, field by field *)
 Lemma release_rest_free (c : dcfg) (s : dst) (mac : N) (l : lease) :
   (c_nat c || negb (smem (l_ip l) (nat s))) = true ->
-  (c_qos c || negb (smem (l_ip l) (qos s) || smem (l_ip l) (qosi s))) = true ->
+  (c_qos c || negb (smem (l_ip l) (qos s) || smem (l_ip l) (qosi s) || smem (l_ip l) (qost s))) = true ->
   ((l_sid l =? 0) || ((count (l_sid l) (stops s) =? 0) && (c_radius c || (count (l_sid l) (starts s) =? 0)))) = true ->
   let s' := fst (release_rest c s mac l) in
-  smem (l_ip l) (nat s') = false /\ smem (l_ip l) (qos s') || smem (l_ip l) (qosi s') = false /\ ahas mac (cmac s') = false /\
+  smem (l_ip l) (nat s') = false /\ smem (l_ip l) (qos s') || smem (l_ip l) (qosi s') || smem (l_ip l) (qost s') = false /\ ahas mac (cmac s') = false /\
   ((l_cid l =? 0) || (negb (ahas (l_cid l) (chash s')) && negb (ahas (l_cid l) (csub s')))) = true /\
   ((l_sid l =? 0) || (count (l_sid l) (starts s') =? 0) || (count (l_sid l) (stops s') =? 1)) = true /\
   alloc s' = alloc s /\ avail s' = avail s /\ unavail s' = unavail s /\ cvlan s' = cvlan s /\ leases s' = leases s.
@@ -236,7 +236,7 @@ Proof.
   apply Z.ltb_lt in T. rewrite T.
   assert (Hn : (c_nat c || negb (smem (l_ip l) (nat (pool_release (drop_lease s mac l) (l_ip l))))) = true).
   { unfold pool_release. simpl. destruct (drop_val (l_ip l) (alloc s)); exact H2. }
-  assert (Hq : (c_qos c || negb (smem (l_ip l) (qos (pool_release (drop_lease s mac l) (l_ip l))) || smem (l_ip l) (qosi (pool_release (drop_lease s mac l) (l_ip l))))) = true).
+  assert (Hq : (c_qos c || negb (smem (l_ip l) (qos (pool_release (drop_lease s mac l) (l_ip l))) || smem (l_ip l) (qosi (pool_release (drop_lease s mac l) (l_ip l))) || smem (l_ip l) (qost (pool_release (drop_lease s mac l) (l_ip l))))) = true).
   { unfold pool_release. simpl. destruct (drop_val (l_ip l) (alloc s)); exact H1. }
   assert (Ha : ((l_sid l =? 0) || ((count (l_sid l) (stops (pool_release (drop_lease s mac l) (l_ip l))) =? 0) &&
                  (c_radius c || (count (l_sid l) (starts (pool_release (drop_lease s mac l) (l_ip l))) =? 0)))) = true).
@@ -605,3 +605,154 @@ Proof.
   exists cfgS, stS, 1, {| ss_mac := 1; ss_state := 4; ss_ip := 2; ss_age := 0; ss_idle := 0 |}.
   repeat split; try (vm_compute; reflexivity). vm_compute. discriminate.
 Qed.
+
+(* ================================================================== two ending paths at once (PPPoE) *)
+(* the object was torn down (or never existed): no teardown path has anything left to do for it *)
+Definition p_done (s : pst) (i : N) : bool :=
+  match aget i (heap s) with Some x => ps_torn x | None => true end.
+
+Lemma p_cleanup_done (c : pcfg) (s : pst) (i : N) : p_done (fst (fst (pcleanup c s i))) i = true.
+Proof.
+  unfold p_done. destruct (aget i (heap s)) as [x|] eqn:H.
+  - destruct (ps_torn x) eqn:T.
+    + assert (E : pcleanup c s i = (s, [], [])) by (unfold pcleanup; now rewrite H, T).
+      rewrite E. simpl. now rewrite H.
+    + unfold pcleanup. rewrite H, T. simpl. rewrite heap_premove. unfold pset. simpl.
+      now rewrite aget_aput_same.
+  - assert (E : pcleanup c s i = (s, [], [])) by (unfold pcleanup; now rewrite H).
+    rewrite E. simpl. now rewrite H.
+Qed.
+
+Lemma p_pterm_done (c : pcfg) (s : pst) (i : N) : p_done (fst (fst (pterm c (s, [], []) i))) i = true.
+Proof.
+  unfold pterm. destruct (aget i (heap s)) as [x|] eqn:H.
+  - match goal with |- context [pcleanup c ?S i] => pose proof (p_cleanup_done c S i) as D; destruct (pcleanup c S i) as [[s2 ev2] mk2] end.
+    exact D.
+  - simpl. unfold p_done. now rewrite H.
+Qed.
+
+Definition td_of (i : N) (o : pop) : Prop := o = TdTerm i \/ exists m, o = TdPadt i m.
+
+(* a teardown path for an object that is done: table, MAC index, pool and Stop records unchanged; the only
+   thing it may still emit is the PADT of TerminateSession (event kind 4) *)
+Lemma p_td_on_done_quiet (c : pcfg) (s : pst) (i : N) (o : pop) :
+  p_done s i = true -> td_of i o ->
+  let r := pstep1 c s o in
+  tbl (fst (fst r)) = tbl s /\ midx (fst (fst r)) = midx s /\ pavail (fst (fst r)) = pavail s /\
+  palloc (fst (fst r)) = palloc s /\ pstops (fst (fst r)) = pstops s /\
+  (forall e, In e (snd (fst r)) -> fst e = 4).
+Proof.
+  unfold p_done. intros D [->|[m ->]]; simpl.
+  - unfold pterm. destruct (aget i (heap s)) as [x|] eqn:H.
+    + unfold pcleanup. unfold pset at 1. simpl. rewrite aget_aput_same. simpl. rewrite D. simpl.
+      repeat split; auto. intros e [<-|[]]. reflexivity.
+    + simpl. repeat split; auto. intros e [].
+  - destruct (aget i (heap s)) as [x|] eqn:H.
+    + destruct (ps_mac x =? m).
+      * unfold pcleanup. rewrite H, D. simpl. repeat split; auto. intros e [].
+      * simpl. repeat split; auto. intros e [].
+    + simpl. repeat split; auto. intros e [].
+Qed.
+
+Definition not_padt (e : N * N) : bool := negb (fst e =? 4).
+
+(* Two teardown paths for one session at once (client PADT while an administrative disconnect or the
+   shutdown pass is inside cleanup, two disconnects, ...): the overlapped second path changes nothing in
+   the table, the index, the pool or the Stop records, and adds no event besides a second PADT:
+   exactly the outcome of the first path alone. *)
+Lemma p_two_paths_at_once (c : pcfg) (s : pst) (i : N) (held : bool) (a b : pop) :
+  (a = TdTerm i \/ exists x, aget i (heap s) = Some x /\ a = TdPadt i (ps_mac x)) -> td_of i b ->
+  let r1 := pstep c s a in
+  let r2 := pstep c s (POverlap held a b) in
+  tbl (fst (fst r2)) = tbl (fst (fst r1)) /\ midx (fst (fst r2)) = midx (fst (fst r1)) /\
+  pavail (fst (fst r2)) = pavail (fst (fst r1)) /\ palloc (fst (fst r2)) = palloc (fst (fst r1)) /\
+  pstops (fst (fst r2)) = pstops (fst (fst r1)) /\
+  filter not_padt (snd (fst r2)) = filter not_padt (snd (fst r1)).
+Proof.
+  intros A B.
+  assert (D : p_done (fst (fst (pstep1 c s a))) i = true).
+  { destruct A as [->|[x [H ->]]]; simpl.
+    - apply p_pterm_done.
+    - rewrite H, N.eqb_refl. apply p_cleanup_done. }
+  assert (E1 : pstep c s a = pstep1 c s a) by (destruct A as [->|[x [_ ->]]]; reflexivity).
+  assert (E2 : pstep c s (POverlap held a b) =
+               let '(s1, e1, m1) := pstep1 c s a in let '(s2, e2, m2) := pstep1 c s1 b in (s2, e1 ++ e2, m1 ++ m2)).
+  { destruct B as [->|[m ->]]; reflexivity. }
+  cbv zeta. rewrite E1, E2. destruct (pstep1 c s a) as [[s1 e1] m1]. simpl in D.
+  pose proof (p_td_on_done_quiet c s1 i b D B) as Q. cbv zeta in Q.
+  destruct (pstep1 c s1 b) as [[s2 e2] m2]. simpl in *.
+  destruct Q as (Q1 & Q2 & Q3 & Q4 & Q5 & Q6). repeat split; auto.
+  rewrite filter_app.
+  assert (F : filter not_padt e2 = []).
+  { clear -Q6. induction e2 as [|e tl IH]; [reflexivity|]. simpl.
+    unfold not_padt at 1. rewrite (Q6 e (or_introl eq_refl)). simpl. apply IH. intros e' I. apply Q6. now right. }
+  rewrite F. apply app_nil_r.
+Qed.
+
+(* non-vacuity: on the established session of stP the first path does release the address and send the
+   Stop, and the overlapped second path leaves exactly that *)
+Lemma p_two_paths_example :
+  let r := pstep cfgP stP (POverlap true (TdTerm 1) (TdPadt 1 1)) in
+  snd (fst r) = [(4, 1); (3, 1); (2, 1)] /\ palloc (fst (fst r)) = [] /\ pstops (fst (fst r)) = [1] /\ tbl (fst (fst r)) = [].
+Proof. vm_compute. repeat split. Qed.
+
+(* ================================================================== DHCP renewals and the circuit-id *)
+(* a renewal that carries no Circuit-ID (no option 82, or relay information without sub-option 1) keeps
+   the circuit-id, the address and the accounting session of the lease: whatever ends the session later
+   still finds the circuit-id bindings *)
+Lemma d_renewal_keeps_circuit (c : dcfg) (s : dst) (mac : N) (relayed : bool) (l : lease) :
+  aget mac (leases s) = Some l ->
+  exists l', aget mac (leases (fst (fst (dstep c s (Request mac (l_ip l) 0 relayed))))) = Some l' /\
+             l_cid l' = l_cid l /\ l_ip l' = l_ip l /\ l_sid l' = l_sid l.
+Proof.
+  intro H. unfold dstep, existing. rewrite H, N.eqb_refl. cbv zeta. simpl.
+  rewrite aget_aput_same. eexists. repeat split.
+Qed.
+
+Lemma aget_aput_other {V} (k k' : N) (v : V) (m : amap V) : k <> k' -> aget k (aput k' v m) = aget k m.
+Proof.
+  intro Ne. induction m as [|[k0 v0] tl IH]; simpl.
+  - destruct (k =? k') eqn:E; [apply N.eqb_eq in E; contradiction|reflexivity].
+  - destruct (k' <? k0) eqn:L; simpl.
+    + destruct (k =? k') eqn:E; [apply N.eqb_eq in E; contradiction|reflexivity].
+    + destruct (k' =? k0) eqn:E0; simpl.
+      * apply N.eqb_eq in E0. subst k0.
+        destruct (k =? k') eqn:E; [apply N.eqb_eq in E; contradiction|reflexivity].
+      * destruct (k =? k0); [reflexivity|exact IH].
+Qed.
+
+(* a renewal from another circuit drops the old circuit's index entry and both cache entries (when the
+   index still points at this client's lease), so that no binding of the session survives under a
+   circuit-id its lease no longer records *)
+Lemma d_renewal_moved_drops_old (c : dcfg) (s : dst) (mac cid : N) (relayed : bool) (l : lease) :
+  aget mac (leases s) = Some l -> cid <> 0 -> l_cid l <> 0 -> cid <> l_cid l ->
+  match aget (l_cid l) (bycid s) with Some p => fst p =? mac | None => false end = true ->
+  let s' := fst (fst (dstep c s (Request mac (l_ip l) cid relayed))) in
+  aget (l_cid l) (bycid s') = None /\ aget (l_cid l) (chash s') = None /\ aget (l_cid l) (csub s') = None /\
+  exists l', aget mac (leases s') = Some l' /\ l_cid l' = cid.
+Proof.
+  intros H C0 L0 Ne Own. unfold dstep, existing. rewrite H, N.eqb_refl. cbv zeta.
+  assert (E0 : (cid =? 0) = false) by now apply N.eqb_neq.
+  assert (E1 : (l_cid l =? 0) = false) by now apply N.eqb_neq.
+  assert (E2 : (l_cid l =? cid) = false) by (apply N.eqb_neq; congruence).
+  rewrite E0. simpl. rewrite E1, E2, Own, E0. simpl.
+  assert (Ne' : l_cid l <> cid) by congruence.
+  repeat split.
+  - rewrite (aget_aput_other _ _ _ _ Ne'). apply aget_adel_same.
+  - match goal with |- context [if ?b then _ else _] => destruct b end; [rewrite (aget_aput_other _ _ _ _ Ne')|]; apply aget_adel_same.
+  - match goal with |- context [if ?b then _ else _] => destruct b end; [rewrite (aget_aput_other _ _ _ _ Ne')|]; apply aget_adel_same.
+  - rewrite aget_aput_same. eexists. split; reflexivity.
+Qed.
+
+(* non-vacuity + fault injection: with qos_ingress full the policy of client 1 is half installed (egress
+   bucket in the kernel, nothing tracked), the state is inside the guard, and RELEASE removes the bucket *)
+Definition cfgDf : dcfg :=
+  {| c_lo := 0; c_hi := 15; c_avail0 := [2;3;4;5;6;7;8;9;10;11;12;13;14]; c_lease := 3600%Z; c_radius := true;
+     c_qos := true; c_nat := true; c_natcap := 4; c_cache := true; c_full := [5] |}.
+Definition stDf : dst := drun cfgDf [Discover 1 1 true; Request 1 2 1 true].
+
+Lemma d_half_installed_example :
+  exists l, aget 1 (leases stDf) = Some l /\ dwf cfgDf stDf 1 l = true /\
+            smem 2 (qos stDf) = true /\ smem 2 (qosi stDf) = false /\ smem 2 (qost stDf) = false /\
+            dheld (fst (fst (dstep cfgDf stDf (Release 1)))) (dsess_lease 1 l) = [].
+Proof. eexists. vm_compute. repeat split. Qed.
